@@ -322,6 +322,11 @@ async fn hive_style_partitions_demuxer(
         // Next compute how the batch should be split up to take each distinct key to its own batch
         let take_map = compute_take_arrays(&rb, &all_partition_values);
 
+        #[cfg(datafusion_verif)]
+        let take_map = datafusion_common::verif::simulated_order(
+            "demux:take_map",
+            take_map.into_iter().collect(),
+        );
         // Divide up the batch into distinct partition key batches and send each batch
         for (part_key, mut builder) in take_map.into_iter() {
             // Take method adapted from https://github.com/lancedb/lance/pull/1337/files
